@@ -52,16 +52,19 @@ impl Gadget {
             // pin rows: every input witness also sits on a (selector-free) row of
             // its own, standing for "wherever the input came from", so that
             // detaching a gadget wire from its input breaks a copy constraint
-            for chunk in ins.chunks(4) {
-                let mut w = [Composer::ZERO; 4];
-                for (k, x) in chunk.iter().enumerate() {
-                    w[k] = *x;
-                }
-                c.verif_raw_gate([zero(); 11], None, w);
+            // (an ACTIVE row `x * 0 = 0`, satisfied by any value: a selector-free
+            // row might legitimately be left out of a permutation scheme)
+            for x in &ins {
+                c.append_gate(Constraint::new().mult(1).a(*x).b(Composer::ZERO));
             }
             let lo = c.verif_witness_count();
             let outs = f(c, &ins)?;
             let hi = c.verif_witness_count();
+            // consumer rows for the returned witnesses, same shape: detaching a
+            // consumer from the gadget's output must break a copy constraint
+            for o in &outs {
+                c.append_gate(Constraint::new().mult(1).a(*o).b(Composer::ZERO));
+            }
             *m2.lock().unwrap() = Meta { lo, hi, outs: outs.iter().map(|w| w.index()).collect() };
             Ok(())
         });
